@@ -536,6 +536,9 @@ class COO(SparseArray, NDArrayOperatorsMixin):  # lgtm [py/missing-equals]
             data = np.asarray(x[0], dtype=dtype)
         else:
             coords = np.array([item[0] for item in x]).T
+            if coords.size == 0:
+                # zero-dimensional coordinates `()`: NumPy makes an empty array a float array
+                coords = coords.astype(np.intp)
             data = np.array([item[1] for item in x], dtype=dtype)
 
         if not (
